@@ -414,6 +414,11 @@ func (p *Pkg) observeStruct(m *Model, sv reflect.Value, prefix Path) {
 				ents = append(ents, ent{kv, PElem{Keys: kv}.KeyString(), fv.MapIndex(k)})
 			}
 			sort.Slice(ents, func(i, j int) bool { return ents[i].s < ents[j].s })
+			for i := 1; i < len(ents); i++ {
+				if ents[i].s == ents[i-1].s {
+					m.Bad = append(m.Bad, "duplicate-key "+lastWithKeys(prefix, alts[0], ents[i].kv).String())
+				}
+			}
 			for _, e := range ents {
 				ep := lastWithKeys(prefix, alts[0], e.kv)
 				m.Entries[m.reg(ep)] = true
